@@ -629,6 +629,25 @@ def install(ex):
         for v in enum_branch(ex, o, ["Some", "None"]):
             yield Ok(variant_field(ex, o, "Some", 0)) if v == "Some" else Err(e)
 
+    @model(r"^<(i64|i128|isize|u64|u128|usize|i32|u32) as From<(i8|i16|i32|u8|u16|u32|bool|char)>>::from$", "lossless integer widening")
+    def int_from(ex, callee, args, rt):
+        v = args[0]
+        if is_z3(v) and z3.is_bool(v):
+            v = z3.If(v, 1, 0)
+        yield v
+
+    @model(r"^(core::)?char::methods::<impl char>::(to_ascii_lowercase|to_ascii_uppercase)$", "char ASCII case conversion")
+    def char_case(ex, callee, args, rt):
+        c = ex.deref(args[0])
+        if callee.endswith("lowercase"):
+            yield z3.If(z3.And(c >= 65, c <= 90), c + 32, c)
+        else:
+            yield z3.If(z3.And(c >= 97, c <= 122), c - 32, c)
+
+    @model(r"^((core|std)::hint::)?must_use$|^((core|std)::hint::)?black_box$", "hint::must_use / black_box: identity")
+    def must_use(ex, callee, args, rt):
+        yield args[0]
+
     @model(r"^(std::option::)?Option::(ok_or_else)$", "Option::ok_or_else")
     def opt_ok_or_else(ex, callee, args, rt):
         o, f = args
